@@ -27,7 +27,7 @@ SEPS = [', ', '; ', ',\n', ';\n', ' , ']
 
 
 def lot_elem(r):
-    k = r.below(5)
+    k = r.below(7)
     n = r.range(1, 40)
     if k == 0:
         return f'Lot {n}'
@@ -38,7 +38,13 @@ def lot_elem(r):
         return f'Lot {n} ({r.range(1, 80)}.{r.range(0, 99):02d})'
     if k == 3:
         return f'Lot {n} [{r.range(1, 80)}.{r.range(0, 9)}]'
-    return f'Lots {n} and {n + r.range(1, 5)}'
+    if k == 4:
+        return f'Lots {n} and {n + r.range(1, 5)}'
+    # a range whose first and / or last lot states its acreage
+    m = n + r.range(1, 3)
+    a1 = f'({r.range(1, 80)}.{r.range(0, 99):02d})' if r.chance(2, 3) else ''
+    a2 = f'[{r.range(1, 80)}.{r.range(0, 9)}]' if (not a1 or r.chance(1, 2)) else ''
+    return f'Lots {n}{a1} {r.choice(["-", "through", "thru"])} {m}{a2}'
 
 
 def aliquot_elem(r):
@@ -92,6 +98,14 @@ OTHER_SETTINGS = [{'suppress_lot_divs': True}, {'qq_depth': 1}, {'qq_depth_max':
                   {'suppress_lot_divs': False}, {}]
 
 
+def stated_in_text(text):
+    import re
+    out = {}
+    for m in re.finditer(r'(\d{1,3})\s*[\(\[]([\d.]+)[\)\]]', text):
+        out.setdefault('L' + str(int(m.group(1))), []).append(m.group(2))
+    return out
+
+
 def dup_consistent(t):
     dl = len(set(t.lots)) != len(t.lots)
     dq = len(set(t.qqs)) != len(t.qqs)
@@ -122,6 +136,9 @@ def check(rep, elems, sep, cfg, rng=None):
         why = 'aliquots differ from the concatenation of the single-element results'
     elif whole.aliquots_whole != exp_whole:
         why = 'aliquots_whole differs'
+    elif stated_in_text(text) and not all(k in whole.lot_acres and whole.lot_acres[k] in v for k, v in stated_in_text(text).items()):
+        # independent reading of the text: a number directly followed by (acres) or [acres] states that lot's acreage
+        why = 'a stated lot acreage is not attributed to its lot'
     elif set(whole.lot_acres) != set(stated) or any(whole.lot_acres[k] not in v for k, v in stated.items()):
         # (when one lot has two stated acreages the property does not say which one wins)
         why = 'a stated lot acreage is not attributed to its lot'
